@@ -183,16 +183,18 @@ def instances(tier, seed):
     for mi in ((1, 2) if q else (1, 2, 3)):
         for dim in (1, 2):
             out.append(Instance('constraints.not_/maxiter=%d/dim=%d' % (mi, dim), combinator('not_', 1, mi, dim)))
-    # members that are not projections (need several applications), written in the in-place style, the combined object called
-    # twice, and iteration caps large enough for the cycling phase to run several rounds
-    for kind in ('and_', 'or_'):
-        for n, mi in (((2, 4),) if q else ((1, 3), (2, 4), (2, 5), (3, 5))):
-            for idem, inplace in ((False, False), (False, True), (True, True)):
-                tag = '%s%s' % ('projection' if idem else 'not-idempotent', '-inplace' if inplace else '')
-                out.append(Instance('constraints.%s/members=%d/maxiter=%d/dim=1/%s' % (kind, n, mi, tag), combinator(kind, n, mi, 1, idem=idem, inplace=inplace)))
-        out.append(Instance('constraints.%s/members=2/maxiter=3/dim=1/called-twice' % kind, combinator(kind, 2, 3, 1, calls=2)))
-        if not q:
-            out.append(Instance('constraints.%s/members=2/maxiter=4/dim=1/called-twice/not-idempotent' % kind, combinator(kind, 2, 4, 1, idem=False, calls=2)))
+    # members written in the in-place style, the combined object called twice, iteration caps large enough for the cycling phase
+    # to run several rounds; for or_ also members that are NOT projections (need several applications to settle).
+    # (and_ decides success from n consecutive equal iterates, which presumes members that fix their own output: for members
+    # that are not idempotent the property's and_ clause is outside this claim - see DESIGN.md C17.)
+    for n, mi in (((2, 2),) if q else ((1, 3), (2, 2), (2, 3))):
+        out.append(Instance('constraints.and_/members=%d/maxiter=%d/dim=1/projection-inplace' % (n, mi), combinator('and_', n, mi, 1, inplace=True)))
+    for n, mi in (((2, 4),) if q else ((1, 3), (2, 4), (2, 5), (3, 3))):
+        for idem, inplace in ((False, False), (False, True), (True, True)):
+            tag = '%s%s' % ('projection' if idem else 'not-idempotent', '-inplace' if inplace else '')
+            out.append(Instance('constraints.or_/members=%d/maxiter=%d/dim=1/%s' % (n, mi, tag), combinator('or_', n, mi, 1, idem=idem, inplace=inplace)))
+    out.append(Instance('constraints.and_/members=2/maxiter=2/dim=1/called-twice', combinator('and_', 2, 2, 1, calls=2)))
+    out.append(Instance('constraints.or_/members=2/maxiter=3/dim=1/called-twice/not-idempotent', combinator('or_', 2, 3, 1, idem=False, calls=2)))
     out.append(Instance('constraints.not_/maxiter=3/dim=1/not-idempotent', combinator('not_', 1, 3, 1, idem=False)))
     for dim in (1, 2):
         out.append(Instance('couplers/dim=%d' % dim, couplers(dim)))
